@@ -35,7 +35,7 @@ class C05(Check):
     components_real = ["Diameter.send_message(s)", "DiameterAssociation (put_message_into_send_queue, send_message_from_queue)",
                        "PeerStateMachine Open.run/event_send_message", "TcpConnection (_set_selector_events_mask, _run, write/_write, read)"]
     components_stub = ["OS sockets/selectors/threads/clock (simkit)", "remote peer (ref.peer.ScriptedPeer)"]
-    assumptions = ["no single message is larger than the per-run send-buffer limit (such a message can never be batched)",
+    assumptions = [
                    "send() never raises EAGAIN after the selector reported writability",
                    "liveness bound D after the last submission and the last fault"]
 
@@ -49,7 +49,10 @@ class C05(Check):
             while i < n:
                 g = rng.choice([1, 1, 1, 2, 4])
                 g = min(g, n - i)
-                ops.append({"n": g, "pads": [rng.choice([0, 0, 1, 2, 3, 40, 300]) for _ in range(g)],
+                ops.append({"n": g, "pads": [rng.choice([0, 0, 1, 2, 3, 40, 300, 300, 3000]) for _ in range(g)],
+                            # submit the very same message object again right away (a retransmission):
+                            # it must be written twice
+                            "again": rng.random() < 0.15,
                             "kinds": [rng.choice(["req", "req", "ans"]) for _ in range(g)],
                             "wait": rng.choice([0.0, 0.0, 0.0005, 0.004, 0.03, 0.2])})
                 i += g
@@ -216,12 +219,12 @@ class C05(Check):
                     for j in range(op["n"]):
                         m, tag = make(si, seq, op["kinds"][j], op["pads"][j])
                         raw = m.dump()
-                        if len(raw) > limit:
-                            # documented assumption: never submit a message that cannot be batched
-                            continue
                         batch.append(m)
-                        submitted.append({"sub": si, "seq": seq, "raw": raw, "tag": tag, "t": sim.now})
+                        submitted.append({"sub": si, "seq": seq, "raw": raw, "tag": tag, "t": sim.now, "count": 1})
                         seq += 1
+                    if op.get("again") and batch:
+                        batch.append(batch[-1])
+                        submitted[-1]["count"] = 2
                     if len(batch) == 1:
                         w.node.send_message(batch[0])
                     elif batch:
@@ -269,12 +272,15 @@ class C05(Check):
                 for m in msgs:
                     if C.find(m, TAG) is not None:
                         tags += 1
-                return tags >= len(submitted)
+                return tags >= sum(s_["count"] for s_ in submitted)
             sim.wait_until(all_written, D, poll=D / 40.0)
             sim.sleep(min(1.0, 30 * tick + 0.1))
             stats["data_sock"] = data_sock
 
         sim.run_main(main)
+        if sim.halt_reason in ("max_steps", "horizon"):
+            return base_result(sim, [], summary={"note": "budget exhausted before the verdict: inconclusive"},
+                               extra={"faults": {"inconclusive_budget_exhausted": 1}, "submitters": 0})
         if not stats["opened"]:
             return base_result(sim, [], summary={"note": "node did not open"}, extra={"faults": {}, "submitters": 0})
         data_sock = stats.pop("data_sock", None)
@@ -311,8 +317,8 @@ class C05(Check):
         seen = {}
         for tag, raw in written:
             seen[tag] = seen.get(tag, 0) + 1
-        dups = sorted(t for t, c in seen.items() if c > 1)
-        lost = sorted(t for t in sub_by_tag if t not in seen)
+        dups = sorted(t for t, c in seen.items() if t in sub_by_tag and c > sub_by_tag[t]["count"])
+        lost = sorted(t for t in sub_by_tag if seen.get(t, 0) < sub_by_tag[t]["count"])
         if dups and not violations:
             violations.append({"clause": "no submitted message is written twice", "sig": "C05/duplicated",
                                "detail": {"trigger": trig, "tags": [t.decode() for t in dups[:6]], "written": len(written), "submitted": len(submitted)}})
